@@ -139,10 +139,10 @@ def apply_mutation(world, frame, mut):
     t = mut["t"]
     n = len(frame)
     if t == "bitflip":
-        i = int(mut["pos"] * n)
+        i = min(n - 1, int(mut["pos"] * n))
         return frame[:i] + bytes([frame[i] ^ (1 << mut["bit"])]) + frame[i + 1:], None
     if t == "subst":
-        i = int(mut["pos"] * n)
+        i = min(n - 1, int(mut["pos"] * n))
         if frame[i] == mut["val"]:
             return None, None
         return frame[:i] + bytes([mut["val"]]) + frame[i + 1:], None
